@@ -9,7 +9,7 @@
  *         write: the taken-out dummy receives the value the first element had AT THE INSTANT OF THE CAS (read before it - afterwards that
  *         node is the new dummy and may already carry another popper's copy).  RETRY/EMPTY change nothing.
  */
-#include "verif_rt.h"
+#include "verif_rt.h"  /* (groups.py passes -DVERIF_LOOP_FLAG) */
 #include "machine_specific.h" /* FIRST: verification copy with the contract body for compare_and_swap2 */
 #include "mpsc_fifo.h"
 typedef struct {
@@ -58,7 +58,7 @@ static void spec_env(int site) {
     if (D.next == 0 && verif_bool()) D.next = &N1;
     if (N1.next == 0 && verif_bool()) N1.next = &N2;
     if (verif_bool()) return;        /* no popper did anything: counter, head, first element's data unchanged */
-    uintptr_t c2 = verif_u64(); VASSUME(c2 > CNT && c2 < (1ull << 62)); CNT = c2;
+    uintptr_t c2 = verif_u64(); VASSUME(c2 > CNT && c2 < (1ull << 61)); CNT = c2;
     /* head only moves forward along existing links */
     if (HEAD == &D && D.next == &N1 && verif_bool()) HEAD = &N1;
     if (HEAD == &N1 && N1.next == &N2 && verif_bool()) HEAD = &N2;
@@ -68,7 +68,7 @@ static void spec_env(int site) {
     if (G.updates) { if (G.taken == &D) D.data = G.l_ddata; else if (G.taken == &N1) N1.data = G.l_n1data; else if (G.taken == &N2) N2.data = G.l_n2data; }
   } else {
     /* poppers move head/counter and rewrite data of nodes they passed; they never touch links or the tail */
-    if (verif_bool()) { uintptr_t c2 = verif_u64(); VASSUME(c2 > CNT && c2 < (1ull << 62)); CNT = c2; HEAD = verif_bool() ? &D : &N1; D.data = (void*)verif_u64(); }
+    if (verif_bool()) { uintptr_t c2 = verif_u64(); VASSUME(c2 > CNT && c2 < (1ull << 61)); CNT = c2; HEAD = verif_bool() ? &D : &N1; D.data = (void*)verif_u64(); }
   }
 }
 static void spec_read(int site, void* addr) {
@@ -78,7 +78,7 @@ static void spec_read(int site, void* addr) {
 #include "verif_point.inc"
 void h_trypop(void) {
   G.pusher = 0; G.updates = G.data_writes = 0; G.saw_null_next = 0; G.taken = 0;
-  CNT = verif_u64(); VASSUME(CNT < (1ull << 61)); HEAD = &D; D.next = verif_bool() ? &N1 : 0; N1.next = (D.next && verif_bool()) ? &N2 : 0; N2.next = 0;
+  CNT = verif_u64(); VASSUME(CNT < (1ull << 60)); HEAD = &D; D.next = verif_bool() ? &N1 : 0; N1.next = (D.next && verif_bool()) ? &N2 : 0; N2.next = 0;
   D.data = (void*)verif_u64(); N1.data = (void*)verif_u64(); N2.data = (void*)verif_u64(); F.tail = N1.next ? &N2 : (D.next ? &N1 : &D);
   spec_snap();
   dist_fifo_node_t* r = dist_fifo_trypop(&F); verif_sync(-1);
@@ -89,7 +89,7 @@ void h_trypop(void) {
 }
 void h_push(void) {
   G.pusher = 1; G.terminated = G.linked = G.tail_set = 0; G.updates = 0;
-  CNT = verif_u64(); VASSUME(CNT < (1ull << 61)); HEAD = &D; F.tail = verif_bool() ? &D : &N1; D.next = F.tail == &D ? 0 : &N1; N1.next = 0;
+  CNT = verif_u64(); VASSUME(CNT < (1ull << 60)); HEAD = &D; F.tail = verif_bool() ? &D : &N1; D.next = F.tail == &D ? 0 : &N1; N1.next = 0;
   NEW.next = verif_bool() ? &D : 0; NEW.data = (void*)verif_u64(); spec_snap();
   dist_fifo_push(&F, &NEW); verif_sync(-1);
   VASSERT(G.linked && G.tail_set, "H: push terminates its node, links it behind the tail, then moves the tail");
